@@ -1163,6 +1163,9 @@ struct json_object *json_tokener_parse_ex(struct json_tokener *tok, const char *
 		case json_tokener_state_array_add:
 			if (json_object_array_add(current, obj) != 0)
 			{
+				/* obj was not attached, it is still ours to release */
+				json_object_put(obj);
+				obj = NULL;
 				tok->err = json_tokener_error_memory;
 				goto out;
 			}
@@ -1288,6 +1291,9 @@ struct json_object *json_tokener_parse_ex(struct json_tokener *tok, const char *
 		case json_tokener_state_object_value_add:
 			if (json_object_object_add(current, obj_field_name, obj) != 0)
 			{
+				/* obj was not attached, it is still ours to release */
+				json_object_put(obj);
+				obj = NULL;
 				tok->err = json_tokener_error_memory;
 				goto out;
 			}
